@@ -12,4 +12,5 @@ def check(run, replay=None):
     return replyprops.check(run, "C09", "Props/C09", THEOREMS, replay,
                             translated=[("Props/C09T", ["c09_translated_raw_modes", "c09_translated_typed_modes", "c09_translated_instantiate_modes"]),
                                         # which handler's data field (hence data mode) an id gets: the entry's own, else the merged handler's
-                                        ("Props/C07R", ["c07_translated_reply_entry_of_one_handler", "c07_translated_second_handler_of_a_reply_id"])])
+                                        ("Props/C07R", ["c07_translated_reply_entry_of_one_handler", "c07_translated_second_handler_of_a_reply_id"]),
+                                        ("Props/C07B", ["c09_hand_model_merge_keeps_data_and_appends"])])
